@@ -229,6 +229,8 @@ def run(ctx):
             ck.violation("C02.setter", inst, "flag setter aborts for a mask pair a handler passes")
         else:
             ck.ok("C02.setter", inst)
+    setter_values(ctx)
+    result_agreement(ctx)
     ck.cov["setter_mask_pairs"] = len(ss.cache)
     ck.cov["unproducible_skipped"] = skipped
     ck.cov["excluded_os_interface"] = excluded
@@ -237,6 +239,123 @@ def run(ctx):
     ck.floor("forms checked", n_forms, 290)
     ck.floor("flag-writing forms", n_flagwriting, 150)
     ck.floor("flag setters", len(ctx.roles.flag_setters), 4)
+
+
+def strip_casts(t):
+    while t[0] in ("w", "cast"):
+        t = t[1]
+    return t
+
+
+def result_agreement(ctx):
+    """C02.result: the value handed to the flag setter (from which ZF/SF/PF are derived) is the value the instruction
+    writes, at the operand's width; for CMP/TEST (nothing written) it is congruent to d-s / d&s modulo 2^K."""
+    from .. import congruence as CG
+    from . import C01
+    ck, facts, O, D, hm = ctx.check, ctx.facts, ctx.oracle, ctx.dispatch, ctx.hmodel
+    n = 0
+    for code in sorted(D.implemented()):
+        oc = O["codes"][code]
+        mn = oc["mnemonic"]
+        if mn in EXCLUDED_MNEMONICS or not hm.producible(code) or mn in SHIFT_MNEMONICS or mn in ("Mul", "Imul", "Div", "Idiv"):
+            continue
+        width = C01.KIND_BITS.get(oc["kinds"][0]) if oc["kinds"] else None
+        where = U.handler_where(facts, D, code)
+        for shape in hm.shapes(code):
+            outs, I = hm.run(code, shape)
+            bad = None
+            seen = False
+            for o in outs:
+                if o.kind != "return" or C_is_err(o):
+                    continue
+                sf = [e for e in o.path.events if e[0] == "set_flags"]
+                if not sf:
+                    continue
+                sm = I.decide(o.path, sf[-1][2])
+                if sm is not None and sm == 0x7FFFFFFFFFFFFFFF:
+                    continue  # flags untouched on this path
+                seen = True
+                e = sf[-1]
+                if width and e[1] != width:
+                    bad = bad or "flags derived at %d bits, operand is %d bits wide" % (e[1], width)
+                res = e[4]
+                ws = [x for x in o.path.events if (x[0] == "reg_write" and U.reg_name(facts, x[2]) == "op0")
+                      or (x[0] == "mem_write" and x[1] != "bytes" and C01.operand_of_leaf(facts, ("mem", 0, x[2], 0)) == 0)]
+                if ws:
+                    if strip_casts(ws[-1][3]) != strip_casts(res):
+                        bad = bad or "flags derived from %s, value written is %s" % (A.show(strip_casts(res))[:50], A.show(strip_casts(ws[-1][3]))[:50])
+                elif mn in ("Cmp", "Test"):
+                    lv = [x for x in H.leaves(res) if x[0] in ("reg", "mem", "opimm")]
+                    roles = {x: C01.operand_of_leaf(facts, x) for x in lv}
+                    if any(v is None for v in roles.values()):
+                        continue
+                    try:
+                        for a in range(CG.MOD):
+                            for b in range(CG.MOD):
+                                env = {}
+                                for x, k in roles.items():
+                                    env[x] = a if k == 0 else b
+                                    env[A.W(x, 64)] = env[x]
+                                got = CG.eval_mod(res, env, I, o.path)
+                                want = ((a - b) if mn == "Cmp" else (a & b)) % CG.MOD
+                                if got != want:
+                                    bad = bad or "%s derives flags from %d (mod %d) for d=%d s=%d, architecture %d" % (mn.upper(), got, CG.MOD, a, b, want)
+                                    raise StopIteration
+                    except (CG.Undecided, StopIteration):
+                        pass
+            if not seen:
+                continue
+            n += 1
+            inst = "Code=%s/%s" % (code, shape[0])
+            if bad:
+                ck.violation("C02.result", inst, bad, where=where, what="ZF/SF/PF are derived from something other than the instruction's result")
+            else:
+                ck.ok("C02.result", inst)
+    ck.floor("flag-result forms", n, 240)
+
+
+def setter_values(ctx):
+    """C02.setter.zsp: for every flag setter (width N) and every result value of a finite class family that covers all
+    cases ZF, SF and PF distinguish (all 256 low bytes x {upper bits clear, only the sign bit, one middle bit}), the setter
+    is interpreted with the result fixed: ZF <=> result == 0, SF <=> bit N-1, PF <=> even parity of the low byte.
+    For the 8-bit setter the enumeration is the complete domain."""
+    from .. import prims as P
+    ck, facts, R = ctx.check, ctx.facts, ctx.roles
+    SETM = 0x4 | 0x40 | 0x80  # PF | ZF | SF requested, nothing else
+    total = 0
+    for setter, n in sorted(R.flag_setters.items(), key=lambda kv: kv[1]):
+        body = facts.bodies[setter]
+        uppers = [0] if n == 8 else [0, 1 << (n - 1), 1 << (n - 2), (1 << (n - 1)) | (1 << 8)]
+        bad = None
+        cnt = 0
+        for up in uppers:
+            for low in range(256):
+                val = (up | low) & ((1 << n) - 1)
+                I = A.Interp(facts)
+                I.widen_at = 12
+                I.concrete_ranges = True
+                outs = list(I.run(body, [P.self_ref(), A.INT(SETM, 64), A.INT(0, 64), A.INT(val, n)], A.Path()))
+                rets = [o for o in outs if o.kind == "return"]
+                cnt += 1
+                if len(rets) != 1 or len(outs) != 1:
+                    bad = bad or "result=%#x: %d outcomes (%s)" % (val, len(outs), [repr(o) for o in outs][:2])
+                    continue
+                v = I.read_loc(rets[0].path, FL.RFLAGS_LOC)
+                bv = A.bitvec(v, rets[0].path)
+                zf, sf, pf = bv[6], bv[7], bv[2]
+                wz = 1 if val == 0 else 0
+                wsf = (val >> (n - 1)) & 1
+                wpf = 1 if bin(val & 0xFF).count("1") % 2 == 0 else 0
+                if (zf, sf, pf) != (wz, wsf, wpf):
+                    bad = bad or "result=%#x: ZF,SF,PF = %s,%s,%s, architecture %d,%d,%d" % (val, zf, sf, pf, wz, wsf, wpf)
+        total += cnt
+        inst = "setter=u%d" % n
+        if bad:
+            ck.violation("C02.setter.zsp", inst, bad, where="%s:%d" % (body["span"][0], body["span"][1]),
+                         what="zero / sign / parity flag derived wrongly from the result")
+        else:
+            ck.ok("C02.setter.zsp", inst, cnt)
+    ck.cov["setter_value_evaluations"] = total
 
 
 def C_is_err(o):
